@@ -474,6 +474,11 @@ fn corpus_walks(tally: &mut Tally) -> usize {
             }
         }
     }
+    // the generated documents too (two-revision files hold superseded versions of objects, which the scan hands out)
+    for (name, opts) in [("gen:rich-classic", DocOpts::CLASSIC), ("gen:rich-xrefstream", DocOpts::STREAM), ("gen:rich-chain", DocOpts::CHAIN), ("gen:rich-chain-streams", DocOpts::CHAIN_STREAM)] {
+        files.push((name.to_string(), rich_doc(b"", opts), vec![]));
+    }
+    files.push(("gen:hostile".to_string(), rich_doc_with(b"", DocOpts::CHAIN, &hostile_objects()), vec![]));
     let n = files.len();
     let parts: Vec<Tally> = files
         .par_iter()
@@ -483,7 +488,7 @@ fn corpus_walks(tally: &mut Tally) -> usize {
                 let walk = |cached: bool| -> std::result::Result<Vec<(String, String)>, String> {
                     let mut o = Obs::new(true);
                     let cfg = Config { tolerant, cached };
-                    match catch(|| open_and_walk(bytes, pw, cfg, &WalkOpts { scan: false, font_codes: false, max_objects: 400 }, &mut o)) {
+                    match catch(|| open_and_walk(bytes, pw, cfg, &WalkOpts { scan: true, font_codes: false, max_objects: 400 }, &mut o)) {
                         Err((loc, msg)) => Err(format!("{} ({})", panic_kind(&loc), truncate(&msg, 100))),
                         Ok(Err(v)) => Err(format!("load-error:{}", v)),
                         Ok(Ok(())) => Ok(o.lines),
